@@ -27,6 +27,7 @@ TEXT = {
  "C01": ("Lean theorems: for all six kinds MarshalCBOR's output is decoded back to the same wire array (tag/prefix stripping proved), and UnmarshalCBOR answers the same on the bare array, the tagged array and the CWT-tagged one for every well-formed wire array (C01Forms: unmarshal_form_independent), so each round trip below holds in all three forms; protected, payload/ciphertext and signature/tag come back byte for byte; "
          "a COSE_Sign1 / COSE_Mac0 produced with default headers verifies under any verifier correct for the signer and yields the original payload, for every payload, external data, key and every unprotected map "
          "with scalar / list values in whatever order Go presents its entries (the decoded unprotected map answers every look-up with the decoded form of the original value); "
+         "the same with a caller-supplied protected map of distinct in-range labels and scalar / list values in any order that does not contradict the key (C01Prot: the protected bytes authenticated are the ones decoded, the decoded protected map answers every look-up like the original, the algorithm check sees the same algorithm); "
          "typed payloads (claims maps, keys) come back answering every look-up as the original, and a CWT produced this way is validated exactly like the original claims for every validator configuration (CwtEndToEnd); "
          "a COSE_Encrypt0 produced with default protected header decrypts to the original payload for every payload, external data, unprotected map and nonce choice (caller IV, Partial IV + Base IV, library-drawn nonce), with no cryptographic hypothesis for the three AEAD models (C12 round-trip theorems); "
          "a COSE_Sign signed by any number of signers (default per-signature headers) decodes to one signature per signer and verifies under every verifier list in which each signer's kid finds a verifier of the same algorithm accepting what the signer signs - "
@@ -48,7 +49,7 @@ TEXT = {
  "C06": ("Lean theorems on the nonce logic: caller IV verbatim; IV+Partial IV, Partial IV >= nonce size, missing Base IV refused; xor = RFC 9052 context IV xor left-padded Partial IV; derived nonce has the nonce length; "
          "never panics (the >= guard keeps the slice in range); random nonce is published in header 5; each encryption consumes its own block of the random stream; GetRandomBytes is make + crypto/rand.Read with no package state (regenerated). Recording Encryptor correspondence, sequences on one key object (seq) and histories of 10^4..10^6 library-chosen nonces per algorithm (msg.noncehistory)",
          "crypto/rand quality not a theorem", T, "7.6"),
- "C09": ("Lean theorems: re-encoding a decoded COSE_Sign1/COSE_Mac0 preserves protected, payload and signature/tag bytes, hence the verdict; COSE_Signature re-encodes its received bucket verbatim, and decode -> encode -> decode is the identity on a decoded COSE_Sign of any number of signatures (body protected bytes, payload, every signature object incl. non-canonical peer buckets), hence the same Verify verdict (C09Sign); RemoveCBORTag removes only the tag; "
+ "C09": ("Lean theorems: re-encoding a decoded COSE_Sign1/COSE_Mac0 preserves protected, payload and signature/tag bytes, hence the verdict; COSE_Signature re-encodes its received bucket verbatim, and decode -> encode -> decode is the identity on a decoded COSE_Sign of any number of signatures (body protected bytes, payload, every signature object incl. non-canonical peer buckets), hence the same Verify verdict (C09Sign); the same fixed point for COSE_Encrypt0, COSE_Mac and COSE_Encrypt with any number of recipients (protected bytes as received, unprotected map, payload / ciphertext, tag, every recipient), hence the same Decrypt result (C09All); RemoveCBORTag removes only the tag; "
          "prefix bytes and tag numbers regenerated from the source; label maps (keys, header maps, claim maps with scalar / list values, any entry order) decode from their encoding with every typed accessor answering as before; "
          "a COSE_KDF_Context survives encode -> decode member by member, absent staying absent and present-but-empty staying present, through the decoder's first-octet dispatch (KdfRoundtrip, over the raw-item lemmas skipItem / rawArrayElems of Cbor/RawLemmas). "
          "Chains decode->encode->decode->verify on library-produced and foreign messages by correspondence",
